@@ -6,7 +6,9 @@
 (* engine something). A FAULT is                                                                    *)
 (*   Cancel(k)      the caller's context reports Canceled from its k-th consultation on (sticky:    *)
 (*                  a cancelled context stays cancelled, as every real context.Context does), or    *)
-(*   Engine(c, v)   the c-th engine call of the transition is answered v \in {"invalid","error"}.   *)
+(*   Engine(c, v)   the c-th engine call of the transition is answered v, one of "invalid" =        *)
+(*                  (false, nil), "error" = (false, err), "errortrue" = (true, err): an engine       *)
+(*                  answer is a pair (ok, err) and ANY non-nil err must surface, whatever ok says.   *)
 (*                                                                                                  *)
 (* THE RULE (operators TookEffect / Allowed, used unchanged by FaultsTrace.tla on real runs):       *)
 (*   a run that returned success saw no fault: the context never reported the cancellation to it    *)
@@ -31,7 +33,11 @@ NoFault == [kind |-> "none"]
 Cancel(k) == [kind |-> "cancel", k |-> k]
 Engine(c, v) == [kind |-> "engine", c |-> c, v |-> v]
 
-BadVerdicts == {"invalid", "error"}
+\* An engine answer is a pair (ok, err); "valid" = (TRUE, nil). The payload is approved iff ok /\ ~err.
+Answer(v) == [ok |-> v \in {"valid", "errortrue"}, err |-> v \in {"error", "errortrue"}]
+Approves(v) == Answer(v).ok /\ ~Answer(v).err
+Verdicts == {"valid", "invalid", "error", "errortrue"}
+BadVerdicts == {v \in Verdicts : ~Approves(v)}
 
 \* Did the fault reach the transition? polls / calls = how many consultations of the context and
 \* how many engine calls the run made.
